@@ -16,9 +16,14 @@ def model():
         m = Model()
         for name in MODULES:
             mod = importlib.import_module('contracts.' + name)
-            for fn in ('build', 'build2', 'build3', 'build4', 'build5', 'build6'):
+            for fn in ('build', 'build2', 'build3', 'build4', 'build5', 'build6', 'build7'):
                 if hasattr(mod, fn):
                     getattr(mod, fn)(m)
+        kf = os.path.join(os.path.dirname(os.path.dirname(__file__)), 'known_findings.json')
+        if os.path.exists(kf):
+            for f in json.load(open(kf)).get('findings', []):
+                if f.get('kind') == 'obligation':
+                    m.unassumed.add(f['obligation'])
         _model = m
     return _model
 
